@@ -171,7 +171,7 @@ def main():
     tier = sys.argv[1] if len(sys.argv) > 1 else "quick"
     ck = Check(PID, tier, "translation_validation")
     tq = 12.0 if tier == "quick" else 180.0
-    K = 2 if tier == "quick" else 3
+    K = int(os.environ.get("VERIF_K", "2"))   # thorough widens layouts / configurations / programs; VERIF_K=3 is the (slow) deeper row bound
     driver.build()
     path, _ = mir.dump_mir()
     fns = mir.parse_mir(path)
@@ -244,15 +244,15 @@ def main():
                                           rendered=ans.get("sql", {}).get("sqlite")))
         if qi % 5 == 0:
             ck.sample(dict(sql=sql, privacy_unit=pun, params=prm, noised=[(n, s) for _, cs in nmaps for n, _, s, _ in cs], multipliers=ms))
-    from common import parallel_build
-    for res in parallel_build(tasks, build_task):
+    from common import budgeted
+    built, results = budgeted(ck, tasks, build_task, lambda qs: smt.solve_all(qs, tq, workers=14, progress=500), tier)
+    for res in built:
         if "unsupported" in res:
             stats["unsupported"][res["unsupported"]] = stats["unsupported"].get(res["unsupported"], 0) + 1
             continue
         for q, mt in res["queries"]:
             queries.append(q)
             meta[q["id"]] = mt
-    results = smt.solve_all(queries, tq, workers=14, progress=500)
     ck.count(results)
     d = driver.Driver(60.0)
     n_tight = disagreements = 0
@@ -300,7 +300,7 @@ def main():
     if tight_total and n_tight == 0:
         ck.inconclusive("no tightness twin is satisfiable: the encoding refutes even half the clip bound everywhere (vacuous?)")
     cov = dict(
-        programs=stats["programs"], disagreements_checked=disagreements, refused_by_rewriter=stats["refused"], skipped_unsupported=stats["unsupported"], noised_columns=stats["noised_columns"],
+        exploration=getattr(ck, "budget", None), programs=stats["programs"], disagreements_checked=disagreements, refused_by_rewriter=stats["refused"], skipped_unsupported=stats["unsupported"], noised_columns=stats["noised_columns"],
         layouts=len(lays), tightness_twins_sat="%d/%d" % (n_tight, tight_total),
         bounds=dict(rows_per_protected_table=K, units="<= %d" % K, groups="<= 2", layouts="all assignments of rows to units and groups (up to renaming of the first group)",
                     outside=["more than %d rows per table" % K, "float rounding (reals)", "var / std aggregates, nested DP sub-queries"]),
